@@ -24,8 +24,15 @@ REGISTRY = {
     'C17': dict(level='proof', bounded='checks.bounded.C17',
                 pyvc=[(UTL, k, None, None) for k in ['threshold_absolute', 'binarize', 'invert', 'normalize', 'teachers_round']], trusted=PYVC_TRUSTED,
                 assumptions=['threshold_proportional and the weight_conversion dispatch are covered by the bounded stand-in only'],
-                technique='deductive (pyvc+z3) for threshold_absolute, binarize, invert, normalize, teachers_round incl. copy-flag identity; bounded stand-in for threshold_proportional, weight_conversion'),
+                technique='deductive (pyvc+z3) for threshold_absolute, binarize, invert, normalize, teachers_round incl. copy-flag identity; bounded stand-in for threshold_proportional, weight_conversion'),    'C13': dict(level='proof', bounded='checks.bounded.C13', extra_proved=['checks.static_proved.c13'],
+                trusted=['engine/pyframe/frame.py (may-alias analysis) and its fresh/view/mutating tables for numpy calls', 'numpy/scipy functions not listed as mutating do not write to their arguments',
+                         'no mutation through eval/exec/C extensions; decorators transparent'],
+                technique='static frame analysis (flow-sensitive may-alias, modular callee summaries): one frame obligation per mutation site in every public function; dynamic snapshot cross-check (bounded)'),
+    'C05': dict(level='proof', bounded='checks.bounded.C05', extra_proved=['checks.static_proved.c05'],
+                trusted=['engine/pyframe/effects.py (syntactic effect obligations E1-E4)', 'numpy/scipy routines called by bct do not draw random numbers themselves',
+                         'get_rng behaves as documented (decided by the bounded tier: None/np.random -> global, RandomState passed through, otherwise fresh RandomState(seed))'],
+                technique='static effect obligations (no global-random use, all draws through get_rng(seed)\'s generator, nested calls receive the generator, no other nondeterminism source) over every seed-accepting function; dynamic cross-check (bounded)'),
 }
-for _pid in ['C02', 'C03', 'C04', 'C05', 'C07', 'C08', 'C09', 'C10', 'C12', 'C13', 'C14', 'C15', 'C16', 'C18', 'C19', 'C20']:
+for _pid in ['C02', 'C03', 'C04', 'C07', 'C08', 'C09', 'C10', 'C12', 'C14', 'C15', 'C16', 'C18', 'C19', 'C20']:
     REGISTRY.setdefault(_pid, dict(level='exploration', bounded='checks.bounded.%s' % _pid, trusted=['oracles of checks/bounded/%s.py' % _pid],
                                    technique='bounded stand-in: the property\'s contract executed on the real functions over exhaustive small scopes'))
